@@ -78,6 +78,9 @@ def gen_plan(seed, tier):
             faults.append([r.range(0, nruns - 1), r.range(1, 8), 1])
     if r.chance(1, 5):   # sem_open fails in one run (descriptor or memory exhaustion at that instant)
         faults.append([r.range(0, nruns - 1), 0, 2])
+    if r.chance(1, 4):   # a run blocked in sem_wait receives SIGTERM
+        for _ in range(r.range(1, 2)):
+            faults.append([r.range(0, nruns - 1), r.range(1, 8), 3])
     return {"params": [seq], "runs": runs, "faults": faults}
 
 
@@ -86,7 +89,7 @@ def describe(plan):
     for i, t in enumerate(plan["runs"]):
         s += " r%d[%s]" % (i, " ".join(t))
     for f in plan["faults"]:
-        s += (" fault:sem_open-fails(run %d%.0s)" if len(f) >= 3 and f[2] == 2 else " fault:EINTR(run %d, blocked wait at its request #%d)" if len(f) >= 3 and f[2] == 1 else " fault:kill(run %d at its request #%d)") % (f[0], f[1])
+        s += (" fault:SIGTERM(run %d, while blocked at its request #%d)" if len(f) >= 3 and f[2] == 3 else " fault:sem_open-fails(run %d%.0s)" if len(f) >= 3 and f[2] == 2 else " fault:EINTR(run %d, blocked wait at its request #%d)" if len(f) >= 3 and f[2] == 1 else " fault:kill(run %d at its request #%d)") % (f[0], f[1])
     return s
 
 
@@ -133,7 +136,8 @@ def run_history(plan, seed, decisions, launcher):
     runs = plan["runs"]
     faults = {(f[0], f[1]) for f in plan["faults"] if len(f) >= 2 and (len(f) < 3 or f[2] == 0)}     # kill before the request
     efaults = {(f[0], f[1]) for f in plan["faults"] if len(f) >= 3 and f[2] == 1}                     # a blocked sem_wait is interrupted by a signal (EINTR)
-    ofaults = {f[0] for f in plan["faults"] if len(f) >= 3 and f[2] == 2}                             # sem_open of that run fails (EMFILE / ENFILE / ENOMEM ...)
+    ofaults = {f[0] for f in plan["faults"] if len(f) >= 3 and f[2] == 2}
+    tfaults = {(f[0], f[1]) for f in plan["faults"] if len(f) >= 3 and f[2] == 3}                     # SIGTERM (Ctrl-C, time limit of a driver) sent to a run blocked in sem_wait                             # sem_open of that run fails (EMFILE / ENFILE / ENOMEM ...)
     procs = {}
     nxt = 0
     # named semaphores: a name designates an object until it is unlinked; processes keep the object they opened
@@ -185,6 +189,8 @@ def run_history(plan, seed, decisions, launcher):
                 blocked = p.pending[0] in "WX" and not (p.idx in pobj and objs[pobj[p.idx]] > 0)
                 if blocked and p.pending.startswith("X"):
                     actions.append(("timeout", p.idx))   # the simulated clock may pass the deadline of a timed wait at any time
+                if blocked and (p.idx, p.nreq - 1) in tfaults:
+                    actions.append(("sigterm", p.idx))
                 if blocked and (p.idx, p.nreq - 1) in efaults:
                     actions.append(("eintr", p.idx))     # a signal whose handler was installed without SA_RESTART interrupts the blocked wait
                 if blocked:
@@ -208,6 +214,45 @@ def run_history(plan, seed, decisions, launcher):
                 trace.append("start r%d" % i)
                 bump("process_started")
                 fetch(p)
+            elif a[0] == "sigterm":
+                # a terminating signal reaches the process while it waits for the lock.  With the default disposition the process dies there
+                # (it holds nothing).  Code that installs a handler runs it now, on top of the blocked sem_wait: whatever semaphore call the
+                # handler makes reaches the simulator as a new request of that process, and is served before the process dies or goes on.
+                import select
+                p = procs[a[1]]
+                tfaults.discard((p.idx, p.nreq - 1))
+                trace.append("r%d %s: SIGTERM delivered while blocked" % (p.idx, p.pending))
+                bump("sigterm_while_blocked_in_sem_wait")
+                os.kill(p.popen.pid, signal.SIGTERM)
+                deadline = time.time() + 5.0
+                while True:
+                    rl, _, _ = select.select([p.sock], [], [], max(0.0, deadline - time.time()))
+                    if not rl:
+                        trace.append("r%d survived the signal and still waits" % p.idx)   # handler that neither dies nor talks: the wait goes on
+                        break
+                    req2 = read_request(p)
+                    if req2 is None:
+                        p.live = False; p.killed = True; p.pending = None
+                        p.popen.wait(); p.sock.close()
+                        trace.append("exit r%d status=%s (terminated by the signal)" % (p.idx, p.popen.returncode))
+                        bump("process_terminated_by_sigterm")
+                        break
+                    o = pobj.get(p.idx)
+                    trace.append("r%d %s (from its signal handler)" % (p.idx, req2))
+                    bump("semaphore_calls_from_a_signal_handler")
+                    if req2[0] == "P":
+                        if o is not None:
+                            objs[o] += 1
+                        if p.idx in wholders:
+                            wholders.discard(p.idx)
+                        else:
+                            bump("post_without_wait")
+                        p.sock.sendall(b"K")
+                    elif req2[0] == "G":
+                        import struct
+                        p.sock.sendall(b"V" + struct.pack("<i", objs[o] if o is not None else 0))
+                    else:
+                        p.sock.sendall(b"K" if req2[0] in "CM" else b"E")
             elif a[0] == "eintr":
                 p = procs[a[1]]
                 trace.append("r%d %s -> EINTR (interrupted by a signal)" % (p.idx, p.pending))
@@ -357,7 +402,8 @@ def mfront_launcher(so, workdir):
             bad = os.path.join(workdir, "invalid.mfront")
             if not os.path.exists(bad):
                 open(bad, "w").write("@DSL MaterialLaw;\n@Law Broken;\n@Output y;\n@Function{ y = ; \n")
-            args = [["--no-such-option"], ["--interface=c", os.path.join(workdir, "does-not-exist.mfront")], ["--interface=c", bad]][k % 3]
+            args = [["--no-such-option"], ["--interface=c", os.path.join(workdir, "does-not-exist.mfront")], ["--interface=c", bad],
+                    ["--omake", "-G", "cmake", "--interface=cpptest", os.path.join(VERIF, "behaviours", "BoundedYoungModulus.mfront")]][k % 4]   # the last one fails in the generation stage (inside a lock-protected section)
         return subprocess.Popen([mf] + args, cwd=workdir, pass_fds=[cs.fileno()], env=env, stdin=subprocess.DEVNULL, stdout=subprocess.DEVNULL, stderr=subprocess.DEVNULL)
     return launch
 
@@ -366,12 +412,14 @@ def gen_real_plan(seed):
     r = SM64(seed)
     nruns = r.range(2, 5)
     seq = r.range(0, nruns - 1) if r.chance(2, 3) else 0
-    runs = [["F%d" % r.range(0, 5)] if not r.chance(1, 5) else ["B%d" % r.range(0, 2)] for _ in range(nruns)]   # B: an invocation that fails (bad option, missing file, invalid file)
+    runs = [["F%d" % r.range(0, 5)] if not r.chance(1, 5) else ["B%d" % r.range(0, 3)] for _ in range(nruns)]   # B: an invocation that fails (bad option, missing file, invalid file)
     faults = [[r.range(0, nruns - 1), r.range(0, 6)]] if r.chance(1, 4) else []
     if r.chance(1, 4):
         faults.append([r.range(0, nruns - 1), r.range(1, 6), 1])
     if r.chance(1, 5):
         faults.append([r.range(0, nruns - 1), 0, 2])
+    if r.chance(1, 4):
+        faults.append([r.range(0, nruns - 1), r.range(1, 6), 3])
     return {"params": [seq], "runs": runs, "faults": faults, "real": 1}
 
 
